@@ -19,8 +19,8 @@ ASSUMPTIONS = [
   "how it is drawn is property C14",
   "the numeric tail (posterior mean/variance from the described data, EI / augmented EI / failure products) is not part of the Gallina "
   "reference (it is C02 and C05); it is decided here by the independent end-to-end Python reference of the searcher, tolerance "
-  "|dEI| <= sigma/cost * (1e-5 + 1e-13 * cond(K)) + 1e-15, requests with cond(K) > 1e9 or sitting on a decision boundary skipped and counted",
-  "the Monte-Carlo parallel form is compared with an independent 200000-sample estimate to 6 standard errors; with failure models it "
+  "|dEI| <= [sigma * (1e-5 + 1e-13 * cond(K)) + k(x,x)/sigma * (1e-15 + 1e-16 * cond(K))] / cost + 1e-15, requests with cond(K) > 1e9 or sitting on a decision boundary skipped and counted",
+  "the Monte-Carlo parallel form is compared with an independent 200000-sample estimate to 6 standard errors + 2e-3 sigma; with failure models it "
   "is tied by introspection only (class, pending set, failure models, thresholds, incumbent data)",
   "requests are well-typed: finite numbers, positive task costs, value/variance matrices as wide as the objectives list",
 ]
@@ -122,14 +122,6 @@ def run_many(raws, workers=8):
     return pool.map(_observe, raws, chunksize=25)
 
 
-def snapshot_ok(raw):
-  """the endpoint must not modify the caller's request (deep comparison before / after)"""
-  from lib import c15_util
-  params = U.build_params(raw)
-  before = c15_util.snap(params)
-  return before
-
-
 # ------------------------------------------------------------------------------------------ correspondence
 
 
@@ -155,7 +147,7 @@ def case_of(raw, obs):
 
 
 def correspondence(ctx):
-  n = ctx.n(420, 6000)
+  n = ctx.n(840, 6000)
   rng = ctx.rng
   raws = []
   for i in range(n):
@@ -187,6 +179,9 @@ def correspondence(ctx):
     dis.append(dict(what=f"C06 correspondence case {i}: {what}", kind="wiring", input=raw,
                     observed=dict(info=obs.get("info"), af=obs.get("af"), raised=obs.get("raised"), response=obs.get("response"))))
   dist["valid_requests_that_raised"] = len(unexpected)
+  weak = C.run_cases("C06w", HEADER, "case", "full_strength", cases, shard=60)
+  dist["main_gp_compared_weakly(tie_or_boundary_in_epsilon_filter)"] = len(weak)
+  dist["epsilon_constraint_cases"] = sum(1 for _, o in meta if not o["raised"] and o["info"]["method"] == "epsilon_constraint")
   return dict(evaluations=n, distinct_nontrivial=nontriv,
               rule="raw requests over 1-3 mixed parameters (double/int/categorical with non-contiguous labels/grid), 2-9 observations with ties, "
                    "constant columns, failures (none .. all), 1-3 optimised + 0-2 constraint + 0-2 stored metrics in a shuffled column layout, both "
@@ -241,9 +236,12 @@ def oracle(raw, mc_seed=7):
     if b is None:
       continue
     s = ref["sigma"][k] / ref["costs"][k]
-    tol = s * (1e-5 + 1e-13 * ref["cond"]) + 1e-15
+    # float rounding: relative error of the posterior (conditioning) plus the cancellation k(x,x) - k^T K^-1 k when sigma is tiny
+    tol = s * (1e-5 + 1e-13 * ref["cond"]) + (ref["prior"][k] / ref["sigma"][k]) * (1e-15 + 1e-16 * ref["cond"]) / ref["costs"][k] + 1e-15
     if ref["mc_se"][k] is not None:
-      tol += 6.0 * ref["mc_se"][k] / ref["costs"][k]
+      # Monte-Carlo form: 6 standard errors, plus 2e-3 sigma because far in the tail (EI << sigma) the 10000-draw estimate is
+      # Poisson-like and its standard error cannot be estimated reliably from samples
+      tol += (6.0 * ref["mc_se"][k] + 2e-3 * ref["sigma"][k]) / ref["costs"][k]
     if abs(a - b) > tol:
       return fail(f"value:{ref['kind']}:{obs['info']['method']}",
                   f"query point {k}: endpoint {a!r}, documented pipeline {b!r} (|d| = {abs(a - b):.3e}, tolerance {tol:.3e}, posterior sigma {ref['sigma'][k]:.3e})",
@@ -265,7 +263,7 @@ def search(ctx, hints, broken):
   for h in hints:
     if isinstance(h.get("input"), dict) and "comps" in h["input"]:
       jobs.append((h["input"], 7))
-  budget = ctx.n(700, 12000) * (2 if broken else 1)
+  budget = ctx.n(2000, 12000) * (2 if broken else 1)
   rng = ctx.rng
   for i in range(budget):
     raw = U.gen_malformed(rng) if i % 25 == 24 else U.gen_request(rng, wide=(i % 3 != 0))
@@ -278,7 +276,7 @@ def search(ctx, hints, broken):
   sigs = set()
   for (raw, _), (f, st) in zip(jobs, results):
     n += 1
-    key = st.split(":")[0] + (":" + st.split(":")[1] if st.startswith(("ok", "oracle")) else "")
+    key = ":".join(st.split(":")[:2])
     status[key] = status.get(key, 0) + 1
     if f and f["signature"] not in sigs and len(fails) < 4:
       sigs.add(f["signature"])
@@ -291,7 +289,15 @@ def search(ctx, hints, broken):
 
 
 def replay(ctx, payload):
-  raw = payload["input"]
+  raw = payload.get("input")
+  if raw is None:   # a "no-failing-input-found" replay: re-check the recorded disagreeing correspondence cases
+    for b in payload.get("what_failed") or []:
+      det = b.get("detail") if isinstance(b, dict) else None
+      if isinstance(det, dict) and isinstance(det.get("input"), dict) and "comps" in det["input"]:
+        r = replay(ctx, dict(input=det["input"]))
+        if r:
+          return r
+    return None
   f, _ = oracle(raw, 7)
   if f:
     return f
